@@ -7,6 +7,7 @@ import (
 	"fmt"
 	"math/big"
 	"strings"
+	"sync"
 	"testing"
 
 	"github.com/piotrnar/gocoin/lib/btc"
@@ -48,6 +49,13 @@ func TestMain(m *testing.M) {
 			return err
 		}
 		return checkWIF(c)
+	})
+	pbt.RegisterReplay("concurrent_export", func(raw json.RawMessage) error {
+		var c concCase
+		if err := json.Unmarshal(raw, &c); err != nil {
+			return err
+		}
+		return checkConcurrent(c)
 	})
 	pbt.RegisterReplay("wallet_bin", func(raw json.RawMessage) error {
 		var c binCase
@@ -625,6 +633,214 @@ func TestWIFRoundTrip(t *testing.T) {
 		}
 		r.NonTrivial()
 		if err := checkWIF(c); err != nil {
+			r.Failf("%v", err)
+		}
+	})
+}
+
+// ---------------------------------------------------------------------------------------------
+// oracle 6: the export functions are pure - the exported string of a key does not depend on what other
+// goroutines export at the same time (the client's web handlers call these functions concurrently)
+
+type concCase struct {
+	Seed    string   `json:"seed"`
+	Ver     int      `json:"ver"`    // index into hd.PrivateVersions
+	Parent  []uint32 `json:"parent"` // 0..2 steps to the parent of the batch
+	Start   uint32   `json:"start"`  // first child number of the batch
+	NKeys   int      `json:"nkeys"`
+	Workers int      `json:"workers"`
+	Rounds  int      `json:"rounds"`
+}
+
+// expItem is one exportable view of one key with the string recorded for it.
+type expItem struct {
+	what   string
+	hdw    *btc.HDWallet    // xprv / xpub
+	pa     *btc.PrivateAddr // WIF
+	h160   []byte           // Base58 addresses
+	ver    byte
+	script []byte // segwit addresses
+	tn     bool
+	want   string
+}
+
+// export renders the item afresh (address objects cache their string, so they are rebuilt every time).
+func (it *expItem) export() string {
+	switch {
+	case it.hdw != nil:
+		return it.hdw.String()
+	case it.pa != nil:
+		return it.pa.String()
+	case it.h160 != nil:
+		return btc.NewAddrFromHash160(it.h160, it.ver).String()
+	}
+	return btc.NewAddrFromPkScript(it.script, it.tn).String()
+}
+
+// reimport checks that the exported string s leads back to the item's key material.
+func (it *expItem) reimport(s string) error {
+	switch {
+	case it.hdw != nil:
+		y, err := btc.StringWallet(s)
+		if err != nil {
+			return fmt.Errorf("StringWallet(%s): %v", s, err)
+		}
+		if y.Prefix != it.hdw.Prefix || y.Depth != it.hdw.Depth || y.I != it.hdw.I || y.Checksum != it.hdw.Checksum ||
+			!bytes.Equal(y.ChCode, it.hdw.ChCode) || !bytes.Equal(y.Key, it.hdw.Key) {
+			return fmt.Errorf("%s re-imports to a different extended key", s)
+		}
+	case it.pa != nil:
+		y, err := btc.DecodePrivateAddr(s)
+		if err != nil {
+			return fmt.Errorf("DecodePrivateAddr(%s): %v", s, err)
+		}
+		if !bytes.Equal(y.Key, it.pa.Key) || y.Version != it.pa.Version {
+			return fmt.Errorf("%s re-imports to key %x", s, y.Key)
+		}
+	case it.h160 != nil:
+		y, err := btc.NewAddrFromString(s)
+		if err != nil || y == nil {
+			return fmt.Errorf("NewAddrFromString(%s): %v", s, err)
+		}
+		if y.Version != it.ver || !bytes.Equal(y.Hash160[:], it.h160) {
+			return fmt.Errorf("%s decodes to version %d hash %x", s, y.Version, y.Hash160)
+		}
+	default:
+		y, err := btc.NewAddrFromString(s)
+		if err != nil || y == nil || y.SegwitProg == nil {
+			return fmt.Errorf("NewAddrFromString(%s): %v", s, err)
+		}
+		if !bytes.Equal(y.OutScript(), it.script) {
+			return fmt.Errorf("%s decodes to script %x", s, y.OutScript())
+		}
+	}
+	return nil
+}
+
+func checkConcurrent(c concCase) error {
+	seed, err := hex.DecodeString(c.Seed)
+	if err != nil || c.Ver < 0 || c.Ver >= len(hd.PrivateVersions) || c.NKeys < 1 || c.Workers < 1 || c.Rounds < 1 {
+		return fmt.Errorf("bad case")
+	}
+	ver := hd.PrivateVersions[c.Ver]
+	tn := hd.IsTestnetVersion(ver)
+	r, e := hd.MasterAnyLength(seed, ver)
+	if e != nil {
+		return nil
+	}
+	w := btc.MasterKey(seed, tn)
+	w.Prefix = ver
+	for _, i := range c.Parent {
+		if r, e = r.Child(i); e != nil {
+			return nil
+		}
+		w = w.Child(i)
+	}
+	wifVer, verKey, verScr, hrp := byte(0x80), byte(0), byte(5), "bc"
+	if tn {
+		wifVer, verKey, verScr, hrp = 0xef, 111, 196, "tb"
+	}
+	// the batch; strings recorded sequentially and compared with the reference
+	var items []*expItem
+	for k := 0; k < c.NKeys; k++ {
+		idx := c.Start + uint32(k)
+		rc, e := r.Child(idx)
+		if e != nil {
+			continue
+		}
+		wc := w.Child(idx)
+		pub := rc.PubKey()
+		tag := fmt.Sprintf("child %08x", idx)
+		items = append(items,
+			&expItem{what: "xprv of " + tag, hdw: wc, want: rc.String()},
+			&expItem{what: "xpub of " + tag, hdw: wc.Pub(), want: rc.Neuter().String()},
+			&expItem{what: "WIF of " + tag, pa: btc.NewPrivateAddr(append([]byte{}, wc.Key[1:]...), wifVer, true), want: addr.WIFEncode(wifVer, rc.PrivKey(), true)},
+			&expItem{what: "P2PKH address of " + tag, h160: hd.Hash160(pub), ver: verKey, want: hd.P2PKHAddr(pub, tn)},
+			&expItem{what: "P2SH-P2WPKH address of " + tag, h160: hd.Hash160(hd.P2WPKHScript(pub)), ver: verScr, want: hd.P2SHP2WPKHAddr(pub, tn)},
+			&expItem{what: "P2WPKH address of " + tag, script: hd.P2WPKHScript(pub), tn: tn, want: hd.P2WPKHAddr(pub, tn)},
+			&expItem{what: "P2TR address of " + tag, script: append([]byte{0x51, 32}, pub[1:]...), tn: tn, want: addr.SegwitEncode(hrp, 1, pub[1:])},
+		)
+	}
+	for _, it := range items {
+		if got := it.export(); got != it.want {
+			return fmt.Errorf("sequential export: %s is %s, reference %s", it.what, got, it.want)
+		}
+		if err := it.reimport(it.want); err != nil {
+			return fmt.Errorf("sequential re-import: %s: %v", it.what, err)
+		}
+	}
+	if len(items) == 0 {
+		return nil
+	}
+	// the same exports from several goroutines at once
+	var ready, done sync.WaitGroup
+	start := make(chan struct{})
+	errs := make([]error, c.Workers)
+	for wk := 0; wk < c.Workers; wk++ {
+		ready.Add(1)
+		done.Add(1)
+		go func(wk int) {
+			defer done.Done()
+			defer func() {
+				if p := recover(); p != nil {
+					errs[wk] = fmt.Errorf("worker %d of %d panicked while exporting concurrently: %v", wk, c.Workers, p)
+				}
+			}()
+			ready.Done()
+			<-start
+			n := 0
+			for round := 0; round < c.Rounds; round++ {
+				for j := range items {
+					it := items[(j+wk*7)%len(items)]
+					got := it.export()
+					if got != it.want {
+						errs[wk] = fmt.Errorf("worker %d of %d, round %d: %s is exported as %s, sequentially (and by the reference) as %s", wk, c.Workers, round, it.what, got, it.want)
+						return
+					}
+					if n++; n%5 == 0 {
+						if err := it.reimport(got); err != nil {
+							errs[wk] = fmt.Errorf("worker %d of %d, round %d: %s: %v", wk, c.Workers, round, it.what, err)
+							return
+						}
+					}
+				}
+			}
+		}(wk)
+	}
+	ready.Wait()
+	close(start)
+	done.Wait()
+	for _, e := range errs {
+		if e != nil {
+			return e
+		}
+	}
+	return nil
+}
+
+func TestConcurrentExport(t *testing.T) {
+	pbt.Check(t, pbt.Cfg{Name: "concurrent_export", Quick: 128, Thorough: 6000}, func(r *pbt.Run) {
+		t := r.T
+		c := concCase{Seed: hex.EncodeToString(genSeed(t)), Ver: rapid.IntRange(0, 5).Draw(t, "ver"),
+			Start: rapid.SampledFrom([]uint32{0, 0x80000000, 0x7ffffff8, 1000}).Draw(t, "start"),
+			NKeys: rapid.IntRange(2, 6).Draw(t, "nkeys"), Workers: 18 - rapid.IntRange(2, 16).Draw(t, "workers"),
+			Rounds: rapid.IntRange(40, 120).Draw(t, "rounds")}
+		np := rapid.IntRange(0, 2).Draw(t, "np")
+		for i := 0; i < np; i++ {
+			c.Parent = append(c.Parent, genIndex(t, fmt.Sprintf("p%d", i)))
+		}
+		r.Case(c)
+		switch {
+		case c.Workers <= 3:
+			r.Class("workers_2_3")
+		case c.Workers <= 7:
+			r.Class("workers_4_7")
+		default:
+			r.Class("workers_8_16")
+		}
+		pbt.AddExtra("concurrent_exports", int64(c.Workers*c.Rounds*c.NKeys*7))
+		r.NonTrivial()
+		if err := checkConcurrent(c); err != nil {
 			r.Failf("%v", err)
 		}
 	})
